@@ -100,6 +100,8 @@ func (v verificationMethodValidator) verifyThumbprint(method *did.VerificationMe
 	if err != nil {
 		return fmt.Errorf("unable to get JWK: %w", err)
 	}
+	// AssignKeyID keeps a kid member that is already present in the JWK, the thumbprint must be calculated
+	_ = keyAsJWK.Remove(jwk.KeyIDKey)
 	_ = jwk.AssignKeyID(keyAsJWK)
 	if keyAsJWK.KeyID() != method.ID.Fragment {
 		return errors.New("key thumbprint does not match ID")
